@@ -133,7 +133,7 @@ def check(run, tier):
         for k in ("calls", "extern_calls", "fn_values"):
             pass
     run.sample({"obligation": "FX-EXTERN", "callee": "core::slice::<impl [T]>::split_at_checked", "class": "pure (core)", "verdict": "discharged"})
-    run.sample({"obligation": "FX-EXTERN", "callee": "std::time::SystemTime::now", "class": "ambient", "only_caller": "tz::utils::system_time::current_duration_since_epoch", "seen_callers": s["ambient_seen"].get("std::time::SystemTime::now")})
+    run.sample({"obligation": "FX-EXTERN", "callee": "std::time::SystemTime::now", "class": "ambient", "allowed": "any crate function reachable only from the public entry points UtcDateTime::now, DateTime::now, TimeZone::find_current_local_time_type", "seen_callers": s["ambient_seen"].get("std::time::SystemTime::now")})
     run.sample({"obligation": "FX-EXTERN", "callee": "std::fs::read", "class": "ambient", "seen_callers": s["ambient_seen"].get("std::fs::read")})
     run.sample({"obligation": "FX-CALLBACK", "capability_fnptr_types": s["capability_fnptr_types"], "fnptr_calls": s["fnptr_calls"], "virtual_calls": s["virtual_calls"]})
     for a in f.adts[:6]:
